@@ -67,6 +67,15 @@ Theorem C12_cache_shortcuts_only_identical : forall c w,
      index_in_width w = true /\ c <> shred_commitment w /\ w_sig_by_leader w = true /\ w_sig_msg w = shred_commitment w).
 Proof. exact cache_shortcuts_only_identical. Qed.
 
+(* in particular: the SAME slice root validly signed a second time under another header (last flag, slice index or slot)
+   is equivocation against the first commitment - not a replay, not an invalid signature *)
+Theorem C12_differently_headed_signed_shreds_equivocate : forall w1 w2,
+  validate_shred None w1 = SOk -> validate_shred None w2 = SOk ->
+  (w_slot w1 < 2 ^ 64)%N -> (w_slot w2 < 2 ^ 64)%N -> (w_slice w1 < 2 ^ 64)%N -> (w_slice w2 < 2 ^ 64)%N ->
+  (w_slot w1, w_slice w1, w_last w1) <> (w_slot w2, w_slice w2, w_last w2) ->
+  validate_shred (Some (shred_commitment w1)) w2 = SEquivocation.
+Proof. exact differently_headed_signed_shreds_equivocate. Qed.
+
 (* the root derived from (payload, index, path) equals an honest slice tree's root only if the payload is the
    leaf at that position and the path is as long as the tree is high - or a collision is exhibited *)
 Theorem C12_payload_bound_to_position : forall (leaves : list (list int)) d i p,
@@ -145,6 +154,7 @@ Proof. vm_compute. repeat split; reflexivity. Qed.
 Print Assumptions C12_commitment_injective.
 Print Assumptions C12_accepted_only_if_signed.
 Print Assumptions C12_cache_shortcuts_only_identical.
+Print Assumptions C12_differently_headed_signed_shreds_equivocate.
 Print Assumptions C12_alias_index_rejected.
 Print Assumptions C12_pinned_alias_index_accepted_refuted.
 Print Assumptions C12_payload_bound_to_position.
